@@ -293,3 +293,163 @@ Proof.
 Qed.
 
 (* without the repair: documents whose conflicting keys are not both mappings ("flat" conflicts) *)
+Lemma pset_keys : forall dry k v d k', alookup k' (pset dry k v d) <> None -> k' = k \/ alookup k' d <> None.
+Proof.
+  intros dry k v d k' H. unfold pset in H. destruct dry; [auto|].
+  rewrite alookup_aset in H. destruct (str_eqb k' k) eqn:E; [left; apply str_eqb_eq; assumption|auto].
+Qed.
+
+(* ------------------------------------------------------------------ an empty destination never conflicts *)
+Lemma bk_loop_fresh : forall cf ks root dry rec items,
+  NoDup (map fst items) -> forall d sk,
+  (forall k, In k (map fst items) -> alookup k d = None) ->
+  snd (bk_loop cf ks root dry rec items d sk) = None /\ snd (fst (bk_loop cf ks root dry rec items d sk)) = sk.
+Proof.
+  induction items as [|[k x] rest IH]; intros Hnd d sk Hd; simpl; [auto|].
+  inversion Hnd as [|? ? Hk Hnd']; subst.
+  rewrite (Hd k (or_introl eq_refl)).
+  apply IH; [assumption|]. intros k0 Hin.
+  destruct (alookup k0 (pset dry k x d)) eqn:E; [|reflexivity].
+  exfalso. destruct (pset_keys dry k x d k0) as [->|H]; [congruence|contradiction|].
+  apply H. apply Hd. right. assumption.
+Qed.
+
+Lemma bykey_top_empty_ok : forall cf ks sdoc dry, NoDup (map fst sdoc) ->
+  snd (bykey_top cf ks sdoc [] dry) = None.
+Proof.
+  intros cf ks sdoc dry Hnd. unfold bykey_top. rewrite bykey_obj.
+  destruct (py_eq (JObj sdoc) (JObj [])); [reflexivity|].
+  destruct (bk_loop_fresh cf ks [] dry (bykey cf ks) sdoc Hnd [] [] (fun _ _ => eq_refl)) as [H1 H2].
+  destruct (bk_loop cf ks [] dry (bykey cf ks) sdoc [] []) as [[d' sk'] e]. simpl in *. subst. reflexivity.
+Qed.
+
+Lemma apply_docsync_empty_ok : forall cf ds sdoc dry, NoDup (map fst sdoc) ->
+  snd (apply_docsync cf ds sdoc [] dry) = None.
+Proof. intros. destruct ds; try reflexivity. apply bykey_top_empty_ok. assumption. Qed.
+
+(* ------------------------------------------------------------------ the backup protocol *)
+Lemma backup_ne : forall fn, backup_name fn <> fn.
+Proof.
+  intros fn H. unfold backup_name in H. assert (L : length (fn ++ [TILDE]) = length fn) by (rewrite H; reflexivity).
+  rewrite app_length in L. simpl in L. lia.
+Qed.
+
+Section SyncDoc.
+  Variable cf : cfg.
+
+  (* C14: a failed document synchronisation of a real run leaves the directory exactly as it was: the
+     document has its old content and mtime and no backup file remains *)
+  Theorem sync_doc_rollback_exact : forall o fn sdir ddir d' e,
+    o_dry_run o = false -> NoDup (map fst (read_doc fn sdir)) ->
+    sync_doc cf o fn sdir ddir = (d', Some e) -> d' = ddir.
+  Proof.
+    intros o fn sdir ddir d' e Hdry Hnd H. unfold sync_doc in H. rewrite Hdry in H.
+    destruct (o_docsync o) as [ks| | |] eqn:Eds; try (inversion H; reflexivity);
+      (destruct (py_eq (JObj (read_doc fn sdir)) (JObj (read_doc fn ddir))); [inversion H; reflexivity|]);
+      match type of H with context [apply_docsync cf ?ds ?a ?b false] =>
+        destruct (apply_docsync cf ds a b false) as [d0 e0] eqn:Ea;
+        pose proof (apply_docsync_empty_ok cf ds a false Hnd) as Hemp
+      end;
+      (destruct (read_doc fn ddir) as [|kv rest] eqn:Edd;
+       [ rewrite Ea in Hemp; simpl in Hemp; subst e0; discriminate | ]);
+      (destruct (alookup fn ddir) as [[c mt|es]|] eqn:Ef;
+       [ | unfold read_doc in Edd; rewrite Ef in Edd; discriminate
+         | unfold read_doc in Edd; rewrite Ef in Edd; discriminate ]);
+      (destruct (alookup (backup_name fn) ddir) as [[c2 m2|es2]|] eqn:Eb; try (inversion H; reflexivity));
+      (destruct e0 as [x|]; [|discriminate]); inversion H; subst; clear H;
+      assert (Hin : alookup fn ddir <> None) by congruence;
+      (destruct (kvs_eqb d0 (kv :: rest));
+       [ rewrite aset_app_in by assumption; rewrite (aset_same _ fn (File c mt) ddir Ef);
+         apply aremove_snoc_absent; assumption
+       | unfold write_doc; rewrite aset_aset; rewrite aset_app_in by assumption;
+         rewrite (aset_same _ fn (File c mt) ddir Ef); apply aremove_snoc_absent; assumption ]).
+  Qed.
+
+  Lemma ds_update_dry : forall sdoc ddoc, ds_update sdoc ddoc true = ddoc.
+  Proof. unfold ds_update. induction sdoc as [|kv sdoc IH]; intros; simpl; auto. Qed.
+
+  Lemma apply_docsync_dry_id : fix_F16 cf = true -> forall ds sdoc ddoc, fst (apply_docsync cf ds sdoc ddoc true) = ddoc.
+  Proof.
+    intros H16 ds sdoc ddoc. destruct ds as [ks| | |]; try reflexivity.
+    - unfold apply_docsync, bykey_top.
+      pose proof (bykey_dry_id cf ks H16 (JObj sdoc) (JObj ddoc) [] []) as B.
+      destruct (bykey cf ks (JObj sdoc) (JObj ddoc) [] true []) as [[d sk] e]. simpl in B. subst d.
+      destruct e; [reflexivity|]. destruct sk; destruct ks; reflexivity.
+    - simpl. apply ds_update_dry.
+  Qed.
+
+  Lemma kvs_eqb_refl : forall a, kvs_eqb a a = true.
+  Proof. intro. unfold kvs_eqb. apply json_eqb_eq. reflexivity. Qed.
+
+  (* C15: with the nested proxy repaired, a dry run leaves the document file alone *)
+  Theorem sync_doc_dry_id : fix_F16 cf = true -> forall o fn sdir ddir,
+    o_dry_run o = true -> NoDup (map fst (read_doc fn sdir)) ->
+    fst (sync_doc cf o fn sdir ddir) = ddir.
+  Proof.
+    intros H16 o fn sdir ddir Hdry Hnd. unfold sync_doc. rewrite Hdry.
+    destruct (o_docsync o) as [ks| | |] eqn:Eds; try reflexivity;
+      (destruct (py_eq (JObj (read_doc fn sdir)) (JObj (read_doc fn ddir))); [reflexivity|]);
+      match goal with |- context [apply_docsync cf ?ds ?a ?b true] =>
+        pose proof (apply_docsync_dry_id H16 ds a b) as Hid;
+        pose proof (apply_docsync_empty_ok cf ds a true Hnd) as Hemp;
+        destruct (apply_docsync cf ds a b true) as [d0 e0] eqn:Ea
+      end; simpl in Hid; subst d0; rewrite kvs_eqb_refl;
+      (destruct (read_doc fn ddir) as [|kv rest] eqn:Edd;
+       [ rewrite Ea in Hemp; simpl in Hemp; subst e0; reflexivity | ]);
+      (destruct (alookup fn ddir) as [[c mt|es]|] eqn:Ef;
+       [ | unfold read_doc in Edd; rewrite Ef in Edd; discriminate
+         | unfold read_doc in Edd; rewrite Ef in Edd; discriminate ]);
+      (destruct (alookup (backup_name fn) ddir) as [[c2 m2|es2]|]; reflexivity).
+  Qed.
+
+  (* the document synchronisation touches the document file and its backup name only *)
+  Lemma sync_doc_frame : forall o fn sdir ddir k, k <> fn -> k <> backup_name fn ->
+    alookup k (fst (sync_doc cf o fn sdir ddir)) = alookup k ddir.
+  Proof.
+    intros o fn sdir ddir k Hk Hb. unfold sync_doc.
+    assert (W : forall x base, alookup k (write_doc fn x base) = alookup k base)
+      by (intros; unfold write_doc; apply alookup_aset_other; congruence).
+    assert (A : forall (v : node) base, alookup k (base ++ [(backup_name fn, v)]) = alookup k base)
+      by (intros; apply alookup_snoc_other; assumption).
+    assert (R : forall base : dir, alookup k (aremove (backup_name fn) base) = alookup k base)
+      by (intros; apply alookup_aremove_other; congruence).
+    destruct (o_docsync o) as [ks| | |] eqn:Eds; try reflexivity;
+      (destruct (py_eq (JObj (read_doc fn sdir)) (JObj (read_doc fn ddir))); [reflexivity|]);
+      match goal with |- context [apply_docsync cf ?ds ?a ?b ?dr] =>
+        destruct (apply_docsync cf ds a b dr) as [d0 e0] end;
+      (destruct (read_doc fn ddir) as [|kv rest];
+       [ destruct e0; [apply W|]; cbn [fst]; destruct (kvs_eqb d0 []); [reflexivity|apply W] | ]);
+      (destruct (alookup fn ddir) as [[c mt|es]|];
+       [ | destruct e0; [apply W|]; cbn [fst]; destruct (kvs_eqb d0 (kv :: rest)); [reflexivity|apply W]
+         | destruct e0; [apply W|]; cbn [fst]; destruct (kvs_eqb d0 (kv :: rest)); [reflexivity|apply W] ]);
+      (destruct (alookup (backup_name fn) ddir) as [[c2 m2|es2]|]; try reflexivity);
+      (destruct (o_dry_run o);
+       [ cbn [fst]; destruct (kvs_eqb d0 (kv :: rest)); [reflexivity|apply W] | ]);
+      (destruct e0; cbn [fst]; rewrite R; [rewrite alookup_aset_other by congruence|];
+       (destruct (kvs_eqb d0 (kv :: rest)); [apply A|rewrite W; apply A])).
+  Qed.
+
+  (* DocSync.NO_SYNC and DocSync.COPY never touch the document through the document path *)
+  Lemma sync_doc_nosync : forall o fn sdir ddir,
+    o_docsync o = DS_nosync \/ o_docsync o = DS_copy -> sync_doc cf o fn sdir ddir = (ddir, None).
+  Proof. intros o fn sdir ddir [H|H]; unfold sync_doc; rewrite H; reflexivity. Qed.
+End SyncDoc.
+
+(* C14: DocSync.update overwrites every key of the source *)
+Lemma fold_pset_frame : forall sdoc d k, ~ In k (map fst sdoc) ->
+  alookup k (fold_left (fun d kv => pset false (fst kv) (snd kv) d) sdoc d) = alookup k d.
+Proof.
+  induction sdoc as [|[k' v'] sdoc IH]; intros d k Hk; simpl; [reflexivity|].
+  rewrite IH by (intro; apply Hk; right; assumption).
+  unfold pset. simpl. apply alookup_aset_other. intro; subst. apply Hk. left. reflexivity.
+Qed.
+
+Theorem update_overwrites_all : forall sdoc ddoc k v, NoDup (map fst sdoc) -> In (k, v) sdoc ->
+  alookup k (ds_update sdoc ddoc false) = Some v.
+Proof.
+  unfold ds_update. induction sdoc as [|[k' v'] sdoc IH]; intros ddoc k v Hnd Hin; [destruct Hin|].
+  inversion Hnd as [|? ? Hk Hnd']; subst. simpl.
+  destruct Hin as [Heq|Hin].
+  - inversion Heq; subst. rewrite fold_pset_frame by assumption. unfold pset. apply alookup_aset_same.
+  - apply IH; assumption.
+Qed.
